@@ -175,11 +175,11 @@ macro_rules | `(tactic| keeps_step) => `(tactic| first
   | with_reducible exact Keeps.pure _
   | with_reducible exact Keeps.throw _
   | with_reducible exact Keeps.get
-  | with_reducible keeps_prim
-  | with_reducible assumption
   | with_reducible (apply Keeps.bind)
   | with_reducible (apply Keeps.forIn)
   | with_reducible (apply Keeps.mapM)
+  | with_reducible assumption
+  | with_reducible keeps_prim
   | (intro _)
   | split
   | (dsimp only)
